@@ -603,6 +603,24 @@ let handle (r : reader) : unit =
       let files = purge_tmp_files n128 ents in
       out_s "OK";
       if idx < 0 then out_hex (file_bytes n128 (kept_of ents)) else out_hex (List.nth files idx)
+  | "JSONW" ->
+      (* JSONW q w d fold ranges -> the characters to_json_aladin writes for the cells() view (prefix "") *)
+      let q = next_qty r in
+      let w = next_n r in
+      let d = next_n r in
+      let fold = next_fold r in
+      let l = next_ranges r in
+      (match moc_cells_o q w d l with
+       | Some cells -> out_s "OK"; out_hex (to_json d fold [] cells)
+       | None -> out_s "ERR cells-fuel")
+  | "JSON2W" ->
+      (* JSON2W d1 d2 fold n (tranges sranges)* -> cellmoc2d_to_json_aladin for Time x Hpx, 64-bit *)
+      let d1 = next_n r in let d2 = next_n r in
+      let fold = next_fold r in
+      let w64 = n_of_int 64 in
+      let cells q d l = (match moc_cells_o q w64 d l with Some c -> c | None -> raise (Parse_error "cells-fuel")) in
+      let l = next_list r (fun r -> let a = next_ranges r in let b = next_ranges r in (cells Time d1 a, cells Hpx d2 b)) in
+      out_s "OK"; out_hex (st_to_json (n_of_int 116) (n_of_int 115) d1 d2 fold l)
   | "HIST" -> handle_hist r
   | "MSET" -> handle_mset r
   | "TEXTV" ->
